@@ -269,5 +269,8 @@ pub fn main(args: &[String]) {
             }
         }
     }
+    // the project's own C program (example/c/main.c) against regenerated headers; symbols of both bridges
+    crate::repo_tests::native_tests(&mut rep, false, true);
+    crate::repo_tests::symbols(&mut rep);
     rep.print();
 }
